@@ -142,7 +142,7 @@ def run_case(case, ctx):
             nth = int(rs.randint(1, 9))
             cnt = [0]
 
-            class Injected(Exception):
+            class Injected(Exception if rs.rand() < 0.7 else BaseException):   # an interrupt is not an Exception
                 pass
 
             def failing(*a, **k):
